@@ -117,6 +117,9 @@ func (k *kernel) expr(e ast.Expr) (string, int, byte) {
 			return e.Name, pAtom, 'b'
 		}
 		if v != nil && v.kind == vBool {
+			if v.boolLit != "" {
+				return v.boolLit, pAtom, 'b'
+			}
 			k.use(v)
 			return v.lean, pAtom, 'b'
 		}
@@ -194,6 +197,17 @@ func (k *kernel) expr(e ast.Expr) (string, int, byte) {
 			l, lp := k.boolean(e.X)
 			r, rp := k.boolean(e.Y)
 			return paren(l, lp, prec) + " " + op + " " + paren(r, rp, prec+1), prec, 'b'
+		}
+	case *ast.SelectorExpr: // x.f of a struct variable
+		if c := k.fieldVar(e); c != nil {
+			k.use(c)
+			switch c.kind {
+			case vBool:
+				return c.lean, pAtom, 'b'
+			case vIntVar:
+				return c.lean, pAtom, 'i'
+			}
+			return c.lean, pAtom, 'f'
 		}
 	case *ast.IndexExpr:
 		if s, ok := k.sliceRead(e); ok {
